@@ -19,7 +19,9 @@ import (
 //	wait      start WaitForChange in its own goroutine; Rel selects the previous index relative to an
 //	          index the director reads immediately before: zero (0), cur (the value read), stale (value-D,
 //	          or value+1000 if that is below 1), future (value+D)
+//	          huge (2147483000); Pre: its context is already cancelled when the call begins
 //	notify    N x NotifyOfChange (Async: in its own goroutine)
+//	unlockq   TrackingLock: Lock, UnlockWithoutNotify
 //	unlock    TrackingLock: Lock, read index, Unlock, read index (Async: in its own goroutine)
 //	cancel    cancel the context of wait W
 //	terminate Terminate (Async: in its own goroutine)
@@ -38,6 +40,7 @@ type top struct {
 	Us    int    `json:"us,omitempty"`
 	Kind  string `json:"kind,omitempty"`  // collide: notify, unlock, terminate
 	First string `json:"first,omitempty"` // collide: cancel or change
+	Pre   bool   `json:"pre,omitempty"`   // wait: the context is cancelled before the call
 }
 
 const trackerWatchdog = 6 * time.Second
@@ -223,12 +226,17 @@ func trackerCase(script []top) map[string]any {
 					}
 				case "future":
 					w.prev = cur + uint64(op.D)
+				case "huge":
+					w.prev = 2147483000
 				}
 			}
 			ctx, cancel := context.WithCancel(context.Background())
 			w.cancel = cancel
 			waits[op.W] = w
 			order = append(order, w)
+			if op.Pre {
+				cancelWait(w)
+			}
 			go func() {
 				t0 := k.us()
 				mu.Lock()
@@ -247,6 +255,11 @@ func trackerCase(script []top) map[string]any {
 				spawn(func() { change(kind, n) })
 			} else {
 				change(kind, n)
+			}
+		case "unlockq":
+			if _, _, ok := tc.guard(tc.lock.Lock); ok {
+				t0, t1, oku := tc.guard(tc.lock.UnlockWithoutNotify)
+				tc.add(map[string]any{"op": "unlockq", "t0": t0, "t1": t1, "ret": oku})
 			}
 		case "cancel":
 			if w := waits[op.W]; w != nil {
@@ -416,11 +429,14 @@ func genTrackerScript(r *rand.Rand, deep bool) []top {
 				rel = "cur"
 			case y < 78:
 				rel, d = "stale", 1+r.Intn(3)
-			default:
+			case y < 95:
 				rel, d = "future", 500+r.Intn(40)
+			default:
+				rel = "huge"
 			}
-			s = append(s, top{Op: "wait", W: nextW, Rel: rel, D: d})
-			out[nextW] = &ws{due: rel != "cur" || terminated}
+			pre := r.Intn(10) == 0
+			s = append(s, top{Op: "wait", W: nextW, Rel: rel, D: d, Pre: pre})
+			out[nextW] = &ws{due: rel != "cur" || terminated || pre}
 			nextW++
 		case x < 52:
 			as := r.Intn(3) == 0
@@ -478,6 +494,8 @@ func genTrackerScript(r *rand.Rand, deep bool) []top {
 				s = append(s, top{Op: "join", W: id})
 				delete(out, id)
 			}
+		case x < 95:
+			s = append(s, top{Op: "unlockq"})
 		default:
 			s = append(s, top{Op: "sleep", Us: []int{0, 0, 20, 200, 1000}[r.Intn(5)]})
 		}
